@@ -32,7 +32,11 @@ case "${1:-}" in
   C*)
     id=$1; tier=${2:-${VERIF_TIER:-quick}}
     case "$id" in
-      C05|C10) build vcheck-race -race || exit 3; bin=./bin/vcheck-race ;;
+      C05|C10) build vcheck-race -race || exit 3; bin=./bin/vcheck-race
+               # race reports go to files (counted by the C10 check; C05 reports their number as an
+               # observation); they never decide the exit code by themselves
+               rm -f replays/$id-race.* 2>/dev/null
+               export GORACE="halt_on_error=0 exitcode=0 history_size=3 log_path=$PWD/replays/$id-race" ;;
       *) build vcheck || exit 3; bin=./bin/vcheck ;;
     esac
     log="replays/$id-$tier-last.log"
